@@ -132,24 +132,12 @@ Definition adjust (offered : dir) (t : tr) : tr :=
       | _ => t
       end
   | Sendonly =>
-      (* repaired code: the remote does not receive, keep at most the receiving half *)
-      match t_dir t with
-      | Inactive | Sendrecv => set_dir t Recvonly
-      | Sendonly => set_dir t Inactive
-      | _ => t
-      end
-  | _ => t
-  end.
-
-(* the sendonly arm as it was before the repair (pinned tree a152027) *)
-Definition adjust_before_repair (offered : dir) (t : tr) : tr :=
-  match offered with
-  | Sendonly =>
+      (* only inactive is adjusted: a local sendrecv or sendonly direction is kept *)
       match t_dir t with
       | Inactive => set_dir t Recvonly
       | _ => t
       end
-  | _ => adjust offered t
+  | _ => t
   end.
 
 (* direction of a transceiver created for an offered section nobody matches *)
@@ -402,3 +390,20 @@ Fixpoint setsender_guarded (p : pc) (os : list lop) : bool :=
 (* the answer an exchange produces *)
 Definition answer_of (p : pc) (secs : list (kind * dir)) (mid : list lop) : result (list dir) :=
   x_answer (snd (exchange p secs mid)).
+
+(* the characterised defect of the direction switch: an offered a=sendonly on a
+   mid whose already-bound transceiver is sendrecv or sendonly keeps that
+   direction.  reoffer_ok p secs: no section of the offer is in that situation
+   in state p (the state SetRemoteDescription starts from). *)
+Definition keeps_sending (m : nat) (t : tr) : bool :=
+  has_mid m t && (dir_eqb (t_dir t) Sendrecv || dir_eqb (t_dir t) Sendonly).
+
+Fixpoint reoffer_ok_from (p : pc) (m : nat) (secs : list (kind * dir)) : bool :=
+  match secs with
+  | [] => true
+  | (_, d) :: more =>
+      (if dir_eqb d Sendonly then forallb (fun t => negb (keeps_sending m t)) p else true)
+      && reoffer_ok_from p (S m) more
+  end.
+
+Definition reoffer_ok (p : pc) (secs : list (kind * dir)) : bool := reoffer_ok_from p 0 secs.
